@@ -750,6 +750,12 @@ def tapeFieldKey (c : Cfg) (fs : Fields) (byToken : Bool) (t : TTok) : Res (Opti
     | .ok p => fieldOfPrim fs byToken p
     | .error e => .error e
 
+/-- a `u16` request that meets a token id (value or element position on the tape). -/
+def u16Tok (ty : Ty) (t : TTok) : Option Nat :=
+  match ty, t with
+  | .u16, .token n => some n
+  | _, _ => none
+
 mutual
 /-- `TySeed(ty).deserialize(ValueDeserializer { value_ind = idx })` (de.rs:1563). -/
 def tVal (c : Cfg) (tape : List TTok) : Nat → Ty → Nat → Res String
@@ -802,7 +808,11 @@ def tVal (c : Cfg) (tape : List TTok) : Nat → Ty → Nat → Res String
           | .end_ _ => .error .other
           | _ => match visitKey c t with | .ok p => enumVal vs p | .error x => .error x
         | leaf =>
-          -- every typed request forwards to `deserialize_any`
+          -- every typed request forwards to `deserialize_any`, except `deserialize_u16` on a token id
+          -- (de.rs `ValueDeserializer::deserialize_u16`, since /repo 4ab9b0c): the raw id, no resolver
+          match u16Tok leaf t with
+          | some n => visitPrim .u16 (.u16 n)
+          | none =>
           match t with
           | .array _ => .error .type | .object _ => .error .type | .rgb _ => .error .type
           | .end_ _ => .error .other
